@@ -16,11 +16,13 @@ import DlmsVerif.Run.Wrapper
 import DlmsVerif.Run.Xdlms
 import DlmsVerif.Run.Acse
 import DlmsVerif.Run.Conn
+import DlmsVerif.Run.Client
 
 structure DriverState where
   link : Run.Link.S := {}
   rx : Run.Rx.S := {}
   conn : Run.Conn.S := {}
+  cli : Run.Client.S := {}
 
 def step (st : DriverState) (line : String) : DriverState × String :=
   match (line.trimAscii.toString.splitOn " ").filter (· ≠ "") with
@@ -35,6 +37,7 @@ def step (st : DriverState) (line : String) : DriverState × String :=
   | "hdlc" :: rest => (st, Run.Hdlc.handle rest)
   | "addr" :: rest => (st, Run.Addr.handle rest)
   | "conn" :: rest => let (l, r) := Run.Conn.handle st.conn rest; ({ st with conn := l }, r)
+  | "cli" :: rest => let (l, r) := Run.Client.handle st.cli rest; ({ st with cli := l }, r)
   | "rx" :: rest => let (l, r) := Run.Rx.handle st.rx rest; ({ st with rx := l }, r)
   | "link" :: rest => let (l, r) := Run.Link.handle st.link rest; ({ st with link := l }, r)
   | [] => (st, "bad-op")
